@@ -448,6 +448,10 @@ func (r *regexp2Wrapper) findAllSubmatchIndexUTF16(s String, start, limit int, s
 				break
 			}
 			start = result.indexes[1]
+			if result.indexes[0] == start {
+				// lastIndex is advanced past an empty match
+				start++
+			}
 		}
 
 		results = append(results, result)
@@ -534,6 +538,14 @@ func (r *regexp2Wrapper) findAllSubmatchIndexUnicode(s unicodeString, start, lim
 				break
 			}
 			start = result.indexes[1]
+			if result.indexes[0] == start {
+				// lastIndex is advanced past an empty match (by one code point)
+				if next := match.RuneIndex + 1; next < len(posMap) {
+					start = posMap[next]
+				} else {
+					start++
+				}
+			}
 		}
 
 		results = append(results, result)
